@@ -30,6 +30,18 @@ PROPS = {
                 rule="a run = a pool of 4 kll / req (HRA or LRA) / classic quantiles sketches over float, string or instrumented items driven by seeded batches (sorted, reversed, random, constant, duplicates, NaN), merge trees (equal/unequal k, empty/exact/estimating operands, lvalue/rvalue), copies and restores, with reader steps (sorted view, rank, quantile, CDF, PMF, invalid queries) interleaved; the coin source is seeded or adversarial (all-0, all-1, alternating); n, extremes, iterator weights and the space bound are checked after every step on every live sketch; non-trivial = at least one merge, restore, reader or adversarial coin; distinct = distinct plan hash"),
     "C08": dict(level="exploration", units=[("quant", "c08", 16, 6000, 200000)],
                 rule="a run = one short seeded history (updates, merges, k minimal) executed with the library's coin owned by the simulator: for kll and classic quantiles every operation is re-executed from a copied pre-state once per outcome of the draws it requests (complete draw tree) and the exact integer martingale identity is checked at every retained item; for req the whole history is replayed under every coin sequence (<= 14 draws) and the mean rank count must equal the true count exactly; non-trivial = at least one operation that flipped a coin; distinct = distinct plan hash"),
+    "C12": dict(level="exploration", units=[("addagg", "c12", 16, 1600, 60000)],
+                rule="a run = 3 frequent_items sketches (int64/int64 weights or string/uint64 weights, lg_max 3..8) fed skewed, uniform and all-distinct weighted streams with zero weights, merged in scheduler order (lvalue/rvalue), copied and restored; exact weight map per sketch; bracket, max-error, total-weight and epsilon clauses for every item and 16 unseen items after every step; result-set guarantees at thresholds around the actual weights; non-trivial = merge/restore/read; distinct = distinct plan hash"),
+    "C14": dict(level="exploration", units=[("addagg", "c14", 16, 2400, 80000)],
+                rule="a run = 3 count-min sketches of one configuration (W in u64/i64/double, 1..255 hashes, 3..1000 buckets, seed) fed integer and string items, merged as a tree, restored, with refused merges; exact counts and a shadow sketch fed the concatenated streams; never-underestimate, bounds, total weight after every step and cell-by-cell linearity after every merge; distinct = distinct plan hash"),
+    "C16": dict(level="exploration", units=[("addagg", "c16", 16, 4000, 120000)],
+                rule="a run = 3 var_opt sketches (k 1..100, resize factors) fed unique items with uniform/exponential/heavy-tailed/increasing/decreasing/one-giant weights, unions of 2-3 sketches in scheduler order through var_opt_union (lvalue/rvalue, serialized and restored), restores, resets, refused weights; the library's draws come from the simulator (10% of runs replace one draw by an extreme); n, sample count, membership, heavy items exact, weight conservation, subset sums after every step; distinct = distinct plan hash"),
+    "C17": dict(level="exploration", units=[("addagg", "c17", 16, 2400, 80000)],
+                rule="a run = 3 t-digests (double/float, k 10..200) fed sorted/reversed/random/clustered/constant/duplicate-heavy/dyadic streams and NaN, merged, restored with and without buffer, with reader steps (rank/quantile grids, CDF/PMF, centroid count) whose placement changes the compress points; exact value list per digest; distinct = distinct plan hash"),
+    "C18": dict(level="exploration", units=[("addagg", "c18", 16, 3000, 100000)],
+                rule="a run = 3 ebpps sketches (k 1..32, one with 2k+1) fed unique weighted items, merged in both directions (lvalue/rvalue), restored, reset; draws owned by the simulator (10% of runs replace one draw by an extreme); n, cumulative weight, c = min(k, W/wmax), result size floor/ceil of c, membership after every step; distinct = distinct plan hash"),
+    "C20": dict(level="exploration", units=[("addagg", "c20", 16, 2400, 80000)],
+                rule="a run = 3 density sketches (float/double, Gaussian or a harness kernel, k 2..16, dim 1..4) fed points, merged by reference and by move, restored, with wrong-dimension updates/merges; coin bit source seeded or adversarial; n, iterator weights 2^level, membership, retained bound, estimation-mode flag, exact kernel mean before the first compaction after every step; distinct = distinct plan hash"),
     "C09": dict(level="exploration", units=[("store_d", "c09d", 6, 2400, 60000), ("store_q", "c09q", 5, 2000, 50000), ("store_m", "c09m", 5, 2000, 50000)],
                 rule="a run = one seeded history (feed/merge/reset, checkpoints through either API with header/chunk/trailing/torn/lost faults, crashes with recovery from the log) over one family and configuration; non-trivial = executed at least one checkpoint round-trip or fault; distinct = distinct plan hash"),
     "C11": dict(level="fault_enumeration", units=[("store_d", "c11d", 6, 360, 9000), ("store_q", "c11q", 5, 300, 7500), ("store_m", "c11m", 5, 300, 7500)],
